@@ -1,7 +1,7 @@
 """C01 — Promise -> Future hand-off: exactly once, intact.
 Proof: coq/props/Properties_C01.v (invariant of the Handoff LTS, all schedules, all values).
 Tie:   every interleaving of the real Future/Promise code (FIBER backend, exhaustive DFS at atomic-operation
-       granularity, 4 producer kinds x 12 consumer kinds) is replayed through Handoff.run inside Coq; the
+       granularity, 4 producer kinds x 18 consumer kinds) is replayed through Handoff.run inside Coq; the
        model must accept every event with the observed value and predict the observed callbacks/values.
 Oracle (from the property text) runs inside the harness on every execution."""
 import json, os, re
@@ -9,7 +9,9 @@ import vlib, runner
 
 KIND = {"then_inline": "KAttach", "then_e": "KAttach", "detach_inline": "KAttach", "detach_e": "KAttach",
         "wait_then": "KAttach", "connect": "KConnect", "detach": "KSilent", "drop": "KSilent",
-        "get_const": "KSilent", "wait": "KSilent", "get_move": "KGet", "peek_get_move": "KGet"}
+        "get_const": "KSilent", "wait": "KSilent", "get_move": "KGet", "peek_get_move": "KGet",
+        "waitfor5_get": "KGet", "waitfor25_get": "KGet", "waitfor45_get": "KGet",
+        "waitfor5_then": "KAttach", "waitfor25_then": "KAttach", "waitfor45_then": "KAttach"}
 
 WORD = {"E": "WE", "C": "WC", "R": "WR"}
 
@@ -35,6 +37,10 @@ def to_events(trace):
                 evs.append("EPeekBegin")
             elif txt == "wait":
                 evs.append("EWaitBegin")
+            elif txt == "twait":
+                evs.append("ETWaitBegin")
+            elif txt.startswith("twret "):
+                evs.append("ETWaitRet %s" % ("true" if txt[6:] == "1" else "false"))
             elif txt.startswith("got "):
                 evs.append("EGot")
                 gots.append(int(txt[4:]))
@@ -56,7 +62,7 @@ def to_events(trace):
             evs.append("EXchg %s" % WORD[cur])
             cur = val
         elif op == "compare_exchange_strong":
-            ok = (cur == "E" and val == "C")
+            ok = (cur != val)        # attach: E -> C; reset after a timed-out wait: C -> E; failure leaves the value
             evs.append("ECas %s" % ("true" if ok else "false"))
             cur = val
         else:
@@ -107,18 +113,18 @@ def main(ck):
     heads = [r for r in rows if "mode" in r]
     traces = [r for r in rows if "trace" in r]
     ck.cov["evaluations"] = sum(h["executions"] for h in heads)
-    ck.cov["exhaustive"] = bool(heads) and all(h["exhaustive"] for h in heads) and len(heads) == 48
+    ck.cov["exhaustive"] = bool(heads) and all(h["exhaustive"] for h in heads) and len(heads) == 48 + 96
     ck.cov["scenarios"] = len(heads)
     for t in traces:
         if t["fail"]:
-            ck.hits.append(dict(what="%s: %s" % (t["scenario"], t["fail"]), key=t["scenario"].split("/")[1] + ":" + t["fail"][:40],
+            ck.hits.append(dict(what="%s: %s" % (t["scenario"], t["fail"]), key=t["scenario"].split("/")[1].split("@")[0] + ":" + t["fail"][:40],
                                 replay=dict(harness="h_c01", scenario=t["scenario"], choices=t["choices"], trace=t["trace"])))
     # ---- correspondence: replay every distinct trace through the model inside Coq
     terms, metas = [], []
     for t in traces:
         if t["fail"]:
             continue
-        ck_kind = KIND[t["scenario"].split("/")[1]]
+        ck_kind = KIND[t["scenario"].split("/")[1].split("@")[0]]
         try:
             evs, cbs, gots = to_events(t["trace"])
         except ValueError as e:
@@ -156,7 +162,7 @@ def main(ck):
     ck.cov["distinct_traces"] = len(traces)
     ck.cov["distinct_nontrivial"] = len(nontriv)
     ck.cov["rule"] = ("exhaustive DFS over every scheduling decision of the FIBER backend (switch before each wrapped atomic/"
-                      "mutex/condvar operation, choice of next fiber, choice of notified waiter) for 4 producer kinds x 12 "
+                      "mutex/condvar operation, choice of next fiber, choice of notified waiter) for 4 producer kinds x 18 "
                       "consumer kinds; traces are deduplicated by their sequence of operations on the callback word plus harness "
                       "observations; non-trivial = the two parties' operations on the word interleave (one party's operation lies "
                       "strictly inside the other's first..last operation, or between the producer's store and exchange)")
